@@ -34,13 +34,23 @@ def replay(rec, repo, seed):
     return script_replay('replay/expand.py', default_fn='PcfgGrammar._recursive_guesses')(rec, repo, seed)
 
 
+def status_path_frame(repo):
+    """what a status / help request runs neither prints to stdout (stdout frame above) nor calls the output point print_guess: it only reads, and every
+    method it calls on its parameters is itself in the checked set (C12's read-only frame, shared)"""
+    import props.C12 as c12
+    recs = effects.readonly_frame(repo, c12.THREAD_READS, tag='status.readonly')
+    for r in recs:
+        r['name'] = 'C09.' + r['name']
+    return recs
+
+
 PROP = Prop(
     'C09', 'Standard output is exactly the guess stream, and --limit is exact',
     functions=[M + 'print_guess', M + '_recursive_guesses', M + 'omen_generate_guesses', M + 'create_guesses',
                CS + 'CrackingSession._save_session', CS + 'CrackingSession.run', 'pcfg_guesser:parse_command_line'],
     lemmas=lambda: ge.catvals_split.lemmas() + gs.flat_ext.lemmas(),
     setup=gs.install,
-    effects=stdout_frame,
+    effects=effects.combine(stdout_frame, status_path_frame),
     level='other',
     replay=replay,
     bounded=[Bounded('C09.bounded.cli', 'replay/cli.py', args=['--fn', 'C09'],
